@@ -73,6 +73,31 @@ class Setup:
             self.sendp = {1: a, 2: b}
             self.recvp = p
             self.nlanes = 2
+        elif kind == 'pqueue':
+            # the thread-safe parser queue used by callback-driven backends:
+            # "send" = the device thread delivering the bytes of one message
+            from mido.backends._parser_queue import ParserQueue
+            pq = ParserQueue()
+            pq._parser.messages = S.AnnDeque()
+            pq._queue = S.AnnQueue(pq._queue)
+
+            class _Adapter:
+                closed = False
+
+                def send(self, msg):
+                    pq.put_bytes(msg.bytes())
+
+                def poll(self):
+                    return pq.poll()
+
+                def iter_pending(self):
+                    return pq.iterpoll()
+            p = _Adapter()
+            self.q = pq._parser.messages
+            self.pq = pq
+            self.sendp = {1: p}
+            self.recvp = p
+            self.nlanes = 1
         else:
             raise ValueError(kind)
         self.keep.append(p)
@@ -81,6 +106,14 @@ class Setup:
             collections.deque.append(self.q, make_msg(mid, sender_of[mid]))
 
     def final_queue(self, sender_of):
+        if self.kind == 'pqueue':
+            import queue
+            out = []
+            while True:
+                try:
+                    out.append(msg_id(self.pq._queue.q.get_nowait(), sender_of))
+                except queue.Empty:
+                    return out
         return [msg_id(m, sender_of) for m in self.q.raw()]
 
     def close(self):
